@@ -84,8 +84,17 @@ func (v *validator) relations() {
 		if v.blkOf[in.Index] == nil && in.Op != OpVariable {
 			continue
 		}
-		v.relation(in)
+		v.relationGuarded(in)
 	}
+}
+
+func (v *validator) relationGuarded(in *Inst) {
+	defer func() {
+		if r := recover(); r != nil {
+			v.add(rMalformed, in.Index, "%s: operand classes too ill-formed to check (%v)", in.Name(), r)
+		}
+	}()
+	v.relation(in)
 }
 
 func (v *validator) relation(in *Inst) {
